@@ -58,3 +58,8 @@ VARIANTS += [
     V("reject-shrink-factor-unclamped", CORE + "adaptive_stepping.py", "    factor = min(facmax, max(facmin, factor))\n",
       "    factor = min(facmax, factor) if error_estimate > 1 else min(facmax, max(facmin, factor))\n", rule="R14.3"),
 ]
+
+VARIANTS += [
+    V("clock-guard-removed", CORE + "base_solver.py", "                if not next_t > curr_t:\n", "                if False:\n", rule="R14.8"),
+    V("twin-clock-guard-spelled-le", CORE + "base_solver.py", "                if not next_t > curr_t:\n", "                if next_t <= curr_t:\n", expect="silent"),
+]
